@@ -36,6 +36,19 @@ Extracted (every other shape fails closed):
     the order yielded                                                                         -> src_islands_by_submission
   * DaskBFE.__call__: `dvs_1d.reshape((-1, nx))`, chunks `(chunk_size, nx)`, chunk_size `max(1, nf // 10)` or the
     configured one, `fitness_func(dvs_2d).ravel()`                                            -> src_bfe_row_major
+
+ what a worker of a process pool receives (round 2b; pickle hooks)
+  * every class under pyxel/{pipelines,detectors,data_structure,outputs,exposure,observation,calibration} that defines
+    __getstate__ / __setstate__: one row (class, [(attribute __init__ sets, how it comes back)]) with
+      AWhole      `self.A = state["k"]` (also list()/tuple()/dict() of it, or `self.__dict__.update(state)`, or the default
+                  __setstate__) where __getstate__ stored `"k": self.A` (also tuple()/list()/dict()/copy of it, or a copy of
+                  `self.__dict__` from which A was not removed)
+      ARecreated  `self.A = <expr>` with the expression __init__ uses, which mentions neither the state nor a parameter
+      ARebuilt ks `self.A = [ModelFunction(**d) for d in state["k"]]` where __getstate__ stored one dict literal per
+                  element of self.A whose keys ks are constructor arguments of ModelFunction
+      AMissing    not set by __setstate__ (or its key is not in the state)
+    __reduce__ / __reduce_ex__ / __getnewargs__ / __getnewargs_ex__ / copyreg / any other statement shape: fail closed
+                                                                                              -> src_pickle_hooks
 """
 from __future__ import annotations
 
@@ -457,7 +470,246 @@ def bfe_row(tree) -> bool:
     return True
 
 
-TEMPLATE = """From Coq Require Import List Bool.
+
+# ------------------------------------------------------------------------------------------ pickle hooks
+
+PICKLE_DIRS = ("pyxel/pipelines", "pyxel/detectors", "pyxel/data_structure", "pyxel/outputs", "pyxel/exposure",
+               "pyxel/observation", "pyxel/calibration")
+OPAQUE_HOOKS = ("__reduce__", "__reduce_ex__", "__getnewargs__", "__getnewargs_ex__")
+MF_FIELDS = {"func": "FFunc", "name": "FName", "arguments": "FArgs", "enabled": "FEnabled"}
+WRAPPERS = ("list", "tuple", "dict", "copy", "deepcopy", "copy.copy", "copy.deepcopy")
+
+
+def _self_attr(node, self_name="self"):
+    return (node.attr if isinstance(node, ast.Attribute) and isinstance(node.value, ast.Name)
+            and node.value.id == self_name else None)
+
+
+def _init_attrs(fn: ast.FunctionDef) -> dict:
+    """attribute -> list of the expressions __init__ assigns to it (in source order)"""
+    out: dict = {}
+    for n in ast.walk(fn):
+        tgts, val = [], None
+        if isinstance(n, ast.Assign):
+            tgts, val = n.targets, n.value
+        elif isinstance(n, (ast.AnnAssign, ast.AugAssign)):
+            tgts, val = [n.target], n.value
+        for t in tgts:
+            for tt in (t.elts if isinstance(t, ast.Tuple) else [t]):
+                a = _self_attr(tt)
+                if a is not None:
+                    out.setdefault(a, []).append(val if not isinstance(t, ast.Tuple) else None)
+    return out
+
+
+def _unwrap(node):
+    """list(x) / tuple(x) / dict(x) / copy(x) / deepcopy(x) / x.copy() -> x (repeatedly)"""
+    while True:
+        if isinstance(node, ast.Call) and u(node.func) in WRAPPERS and len(node.args) == 1 and not node.keywords:
+            node = node.args[0]
+        elif (isinstance(node, ast.Call) and isinstance(node.func, ast.Attribute) and node.func.attr == "copy"
+              and not node.args and not node.keywords):
+            node = node.func.value
+        else:
+            return node
+
+
+def _state_key(node, state: str):
+    """state["k"] -> "k" """
+    if (isinstance(node, ast.Subscript) and isinstance(node.value, ast.Name) and node.value.id == state
+            and isinstance(node.slice, ast.Constant) and isinstance(node.slice.value, str)):
+        return node.slice.value
+    return None
+
+
+def _getstate_table(fn: ast.FunctionDef | None):
+    """-> ("dict", {key: value expr}) for a returned dict literal; ("all", {removed keys}) for a copy of
+    self.__dict__ (possibly with removed keys); fn None = default __getstate__ = ("all", set())"""
+    if fn is None:
+        return "all", set()
+    body = body_no_doc(fn)
+    rets = [n for n in ast.walk(fn) if isinstance(n, ast.Return)]
+    if len(rets) != 1 or body[-1] is not rets[0]:
+        fail(fn, "__getstate__ must end with its only return")
+    rv = rets[0].value
+    if isinstance(rv, ast.Dict):
+        # plain statements before the return are allowed only if they are simple local assignments used in the dict
+        loc = {}
+        for st in body[:-1]:
+            if (isinstance(st, (ast.Assign, ast.AnnAssign)) and isinstance((st.targets[0] if isinstance(st, ast.Assign) else st.target), ast.Name)):
+                tgt = st.targets[0] if isinstance(st, ast.Assign) else st.target
+                loc[tgt.id] = st.value
+            else:
+                fail(st, "unknown statement in __getstate__")
+        tab = {}
+        for k, v in zip(rv.keys, rv.values):
+            if not (isinstance(k, ast.Constant) and isinstance(k.value, str)):
+                fail(rv, "__getstate__ keys must be string literals")
+            if isinstance(v, ast.Name) and v.id in loc:
+                v = loc[v.id]
+            tab[k.value] = v
+        return "dict", tab
+    if isinstance(rv, ast.Name):
+        name = rv.id
+        removed = set()
+        started = False
+        for st in body[:-1]:
+            if isinstance(st, (ast.Assign, ast.AnnAssign)):
+                tgt = st.targets[0] if isinstance(st, ast.Assign) else st.target
+                if isinstance(tgt, ast.Name) and tgt.id == name and u(_unwrap(st.value)) == "self.__dict__" \
+                        and st.value is not _unwrap(st.value):
+                    started = True
+                    continue
+            if isinstance(st, ast.Delete) and all(_state_key(t, name) for t in st.targets):
+                removed |= {_state_key(t, name) for t in st.targets}
+                continue
+            if (isinstance(st, ast.Expr) and isinstance(st.value, ast.Call) and u(st.value.func) == f"{name}.pop"
+                    and st.value.args and isinstance(st.value.args[0], ast.Constant)):
+                removed.add(st.value.args[0].value)
+                continue
+            fail(st, "unknown statement in __getstate__")
+        if not started:
+            fail(fn, "__getstate__ must return a dict literal or a copy of self.__dict__")
+        return "all", removed
+    fail(rv, "__getstate__ must return a dict literal or a copy of self.__dict__")
+
+
+def _rebuilt(val, state: str, gtab, attr: str):
+    """`[ModelFunction(**d) for d in state["k"]]` (or list(<the same generator>)) with the state holding one dict
+    literal per element of self.<attr> -> the kept constructor keywords, else None"""
+    comp = val
+    if isinstance(val, ast.Call) and u(val.func) in ("list", "tuple") and len(val.args) == 1:
+        comp = val.args[0]
+    if not isinstance(comp, (ast.ListComp, ast.GeneratorExp)) or len(comp.generators) != 1 or comp.generators[0].ifs:
+        return None
+    g = comp.generators[0]
+    k = _state_key(g.iter, state)
+    e = comp.elt
+    if (k is None or not isinstance(g.target, ast.Name) or not isinstance(e, ast.Call) or e.args
+            or len(e.keywords) != 1 or e.keywords[0].arg is not None or u(e.keywords[0].value) != g.target.id):
+        return None
+    if u(e.func) != "ModelFunction":
+        fail(val, "elements rebuilt through a constructor the model does not know")
+    if gtab[0] != "dict" or k not in gtab[1]:
+        return "missing"
+    src = gtab[1][k]
+    if isinstance(src, ast.Call) and u(src.func) in ("list", "tuple") and len(src.args) == 1:
+        src = src.args[0]
+    if not isinstance(src, (ast.ListComp, ast.GeneratorExp)) or len(src.generators) != 1 or src.generators[0].ifs \
+            or u(src.generators[0].iter) != f"self.{attr}" or not isinstance(src.elt, ast.Dict):
+        fail(src, "the stored definitions must be one dict literal per element of the attribute")
+    kept = []
+    for kk in src.elt.keys:
+        if not (isinstance(kk, ast.Constant) and kk.value in MF_FIELDS):
+            fail(src.elt, "unknown constructor keyword in the stored definition")
+        kept.append(MF_FIELDS[kk.value])
+    return kept
+
+
+def _hook_row(cls: ast.ClassDef):
+    meths = {n.name: n for n in cls.body if isinstance(n, (ast.FunctionDef, ast.AsyncFunctionDef))}
+    for h in OPAQUE_HOOKS:
+        if h in meths:
+            fail(meths[h], f"class {cls.name} defines {h}: what a pickle round trip restores is not known")
+    gs, ss = meths.get("__getstate__"), meths.get("__setstate__")
+    if gs is None and ss is None:
+        return None
+    if "__init__" not in meths:
+        fail(cls, f"class {cls.name} has pickle hooks but no __init__ of its own")
+    init = _init_attrs(meths["__init__"])
+    init_params = set(params_of(meths["__init__"]))
+    gtab = _getstate_table(gs)
+    restored: dict = {}
+
+    def from_state(attr: str, key: str):
+        if gtab[0] == "all":
+            return "AWhole" if key == attr and key not in gtab[1] else "AMissing"
+        if key not in gtab[1]:
+            return "AMissing"
+        src = _unwrap(gtab[1][key])
+        if _self_attr(src) == attr:
+            return "AWhole"
+        fail(gtab[1][key], f"{cls.name}.__getstate__: key {key!r} restored into {attr!r} is not taken from self.{attr}")
+
+    if ss is None:
+        # default __setstate__: self.__dict__.update(state)
+        keys = (set(gtab[1]) if gtab[0] == "dict" else None)
+        for a in init:
+            restored[a] = from_state(a, a) if (keys is None or a in keys) else "AMissing"
+    else:
+        ps = params_of(ss)
+        if len(ps) != 2:
+            fail(ss, "__setstate__(self, state)")
+        state = ps[1]
+        for st in body_no_doc(ss):
+            if isinstance(st, (ast.Assign, ast.AnnAssign)):
+                tgt = st.targets[0] if isinstance(st, ast.Assign) and len(st.targets) == 1 else getattr(st, "target", None)
+                a = _self_attr(tgt) if tgt is not None else None
+                if a is None:
+                    fail(st, "unknown statement in __setstate__")
+                val = st.value
+                k = _state_key(_unwrap(val), state)
+                if k is not None:
+                    restored[a] = from_state(a, k)
+                    continue
+                rb = _rebuilt(val, state, gtab, a)
+                if rb == "missing":
+                    restored[a] = "AMissing"
+                    continue
+                if rb is not None:
+                    restored[a] = "(ARebuilt [" + "; ".join(rb) + "])"
+                    continue
+                names = {n.id for n in ast.walk(val) if isinstance(n, ast.Name)}
+                if state in names or names & init_params:
+                    fail(st, "unknown way of restoring an attribute in __setstate__")
+                if a in init and any(x is not None and u(x) == u(val) for x in init[a]):
+                    restored[a] = "ARecreated"
+                    continue
+                fail(st, "attribute set by __setstate__ to something __init__ does not set it to")
+            elif (isinstance(st, ast.Expr) and isinstance(st.value, ast.Call)
+                  and u(st.value.func) == "self.__dict__.update" and [u(x) for x in st.value.args] == [state]
+                  and not st.value.keywords):
+                for a in init:
+                    if a not in restored:
+                        r = from_state(a, a) if (gtab[0] == "all" or a in gtab[1]) else None
+                        if r is not None:
+                            restored[a] = r
+            else:
+                fail(st, "unknown statement in __setstate__")
+    return cls.name, [(a, restored.get(a, "AMissing")) for a in sorted(init)]
+
+
+def pickle_rows(repo: Path):
+    rows = []
+    for d in PICKLE_DIRS:
+        base = repo / d
+        if not base.is_dir():
+            fail(None, f"{d}: directory not found")
+        for f in sorted(base.rglob("*.py")):
+            rel = str(f.relative_to(repo))
+            tree = parse(repo, rel)
+            for n in ast.walk(tree):
+                if isinstance(n, ast.Call) and u(n.func) in ("copyreg.pickle", "copyreg.constructor"):
+                    fail(n, f"{rel}: copyreg registration")
+                if isinstance(n, ast.ClassDef):
+                    row = _hook_row(n)
+                    if row is not None:
+                        rows.append(row)
+    names = [r[0] for r in rows]
+    if len(set(names)) != len(names):
+        fail(None, f"two hooked classes with one name: {names}")
+    return rows
+
+
+def render_hooks(rows) -> str:
+    body = ";\n  ".join('mkHook "%s" [%s]' % (c, "; ".join('("%s", %s)' % (a, r) for a, r in attrs)) for c, attrs in rows)
+    return ("\n(* pickle hooks (__getstate__ / __setstate__) of the classes whose objects travel to the workers of a process\n"
+            "   pool: for every attribute __init__ sets, how it comes back from a round trip *)\n"
+            "Definition src_pickle_hooks : list hook_row := [\n  " + body + "\n]%string.\n")
+
+
+TEMPLATE = """From Coq Require Import String.
+From Coq Require Import List Bool.
 From PyxelV Require Import Model.Parallel.
 Import ListNotations.
 
@@ -479,11 +731,15 @@ Definition src_bfe_row_major : bool := {bfe}.
 """
 
 
+HOOKS_UNCHANGED = [("ModelGroup", [("_log", "ARecreated"), ("_name", "AWhole"), ("models", "AWhole")])]
+
+
 def render(seq, prod, custom, bind="BindPosition", same=True, names=True, types=True, tuples=True, fidx=True,
-           isl=True, bfe=True) -> str:
+           isl=True, bfe=True, hooks=None) -> str:
     b = lambda x: "true" if x else "false"  # noqa: E731
-    return HEADER + TEMPLATE.format(seq=seq, prod=prod, custom=custom, bind=bind, same=b(same), names=b(names),
-                                    types=b(types), tuples=b(tuples), fidx=b(fidx), isl=b(isl), bfe=b(bfe))
+    return (HEADER + TEMPLATE.format(seq=seq, prod=prod, custom=custom, bind=bind, same=b(same), names=b(names),
+                                     types=b(types), tuples=b(tuples), fidx=b(fidx), isl=b(isl), bfe=b(bfe))
+            + render_hooks(HOOKS_UNCHANGED if hooks is None else hooks))
 
 
 def rows(repo: Path) -> dict:
@@ -498,8 +754,9 @@ def rows(repo: Path) -> dict:
     fidx = file_index_row(dask)
     isl = islands_row(parse(repo, ARCHI))
     bfe = bfe_row(parse(repo, UDEF))
+    hooks = pickle_rows(repo)
     return dict(seq=seq, prod=prod, custom=custom, bind=bind, same=same, names=names, types=types, tuples=True,
-                fidx=fidx, isl=isl, bfe=bfe)
+                fidx=fidx, isl=isl, bfe=bfe, hooks=hooks)
 
 
 def translate(repo: Path) -> str:
